@@ -4,6 +4,7 @@ from . import gen
 TEXT_BITS = (gen.ALL_KEYWORDS + ['**', '//', '__', '{{', '}}', '{{*', '{{^', '{{>', '{{FOOTNOTE 1}}', '{{IMG a b}}', '\\', '\\\\', '*', '/', '_', '{', '}',
                                  ' - ', '-', ' ', '  ', 'a', 'b c', 'Z', '1.', '(a)', 'é', 'א', '\U0001F600', 'P ', 'P.', 'P{', 'ITEM', 'FROM x', 'TC', 'TR', 'TH',
                                  '***', '///', '___', '*', '**x', 'x**', '\n', '\t', ' x ', 'SUBPART 2', 'HEADING', 'nn'])
+_NOTE = [0]
 INLINE = ['b', 'i', 'u', 'sup', 'sub', 'ref', 'term', 'abbr', 'def', 'ins', 'del', 'inline', 'remark', 'span', 'em']
 HIER = [k.lower() for k in gen.HIER[:27]]
 
@@ -26,7 +27,8 @@ def rinline(rng, depth=0):
         elif k < 0.6:
             out.append(['img', {'src': rng.choice(['http://a/b.png', 'a b.png', 'x']), **({'alt': rtext(rng, 1).replace('\n', ' ').replace('}', ')').replace('|', '/')} if rng.random() < 0.5 else {})}, []])
         elif k < 0.65:
-            out.append(['authorialNote', {'marker': rng.choice(['1', '*', 'a']), 'placement': 'bottom'}, [rp(rng, depth + 1)]])
+            _NOTE[0] += 1
+            out.append(['authorialNote', {'marker': str(_NOTE[0]), 'placement': 'bottom'}, [rp(rng, depth + 1)]])
         else:
             t = rng.choice(INLINE)
             attrs = {}
@@ -86,7 +88,7 @@ def rblock(rng, depth=0):
         return ['block', {'name': 'quote'}, [['embeddedStructure', ({'startQuote': '"'} if rng.random() < 0.3 else {}), [rblock(rng, depth + 1)]]]]
     if k < 0.94:
         return ['blockContainer', {}, [rblock(rng, depth + 1) for _ in range(rng.randint(1, 2))]]
-    return ['crossHeading', {}, rinline(rng, 1)] if depth == 0 else rp(rng, depth)
+    return rp(rng, depth)
 
 
 def rhier(rng, depth=0):
@@ -104,6 +106,8 @@ def rhier(rng, depth=0):
             body.append(['intro', {}, [rblock(rng, 1)]])
         for _ in range(rng.randint(1, 2)):
             body.append(rhier(rng, depth + 1))
+            if rng.random() < 0.2:
+                body.append(['crossHeading', {}, rinline(rng, 1)])
         if rng.random() < 0.3:
             body.append(['wrapUp', {}, [rblock(rng, 1)]])
         kids += body
@@ -115,6 +119,7 @@ def rhier(rng, depth=0):
 
 def rdoc(rng):
     """a whole document or a fragment"""
+    _NOTE[0] = 0
     k = rng.random()
     if k < 0.35:
         return rhier(rng)
@@ -122,6 +127,11 @@ def rdoc(rng):
         return rblock(rng)
     if k < 0.65:
         return rp(rng)
-    body = [rhier(rng) if rng.random() < 0.6 else ['hcontainer', {'name': 'hcontainer'}, [['content', {}, [rblock(rng)]]]] for _ in range(rng.randint(1, 3))]
+    body = []
+    for _ in range(rng.randint(1, 3)):
+        if rng.random() < 0.6 or (body and body[-1][0] == 'hcontainer'):
+            body.append(rhier(rng))
+        else:
+            body.append(['hcontainer', {'name': 'hcontainer'}, [['content', {}, [rblock(rng) for _ in range(rng.randint(1, 2))]]]])
     pre = [['preface', {}, [rblock(rng, 1)]]] if rng.random() < 0.3 else []
     return ['akomaNtoso', {}, [['act', {'name': 'act'}, [['meta', {}, []]] + pre + [['body', {}, body]]]]]
